@@ -287,7 +287,7 @@ type polInst struct {
 	maf          bool
 	evl          bool
 	basicRefused bool
-	extra        int // elements appended by the built-in Marshal
+	extra        int  // elements appended by the built-in Marshal
 	ro           bool // read-only: installing / removing closures is refused, the installed ones still decide
 }
 
